@@ -55,6 +55,9 @@ def proof_coverage(ck, prefixes, extra=None):
         ],
         "theorems": names,
     }
+    lc = getattr(ck, "leanchecker", None)
+    if lc:
+        cov["leanchecker"] = lc
     if extra:
         cov.update(extra)
     return cov
